@@ -5,6 +5,11 @@ The real ErrorRecoveryDecorator (openpectus/engine/hardware_recovery.py) wraps a
 executed against a fresh decorator.  After EVERY event the observed state is compared with the set of states the
 reference model (written from docs/src/Error Recovery.rst) allows as successor of the previously observed state;
 the Connection Status tag, raise/no-raise and the values of masked reads are checked as well.
+
+Besides the single-register and the fixed-batch API variants there are mixed-access variants (three registers): single
+reads and batch reads over different subsets / orders in one sequence, then failures and masked reads of registers whose
+last successful read went through another call; the expected masked value is the last value the fake hardware returned
+for that register, whichever call obtained it.
 """
 from __future__ import annotations
 
@@ -20,7 +25,12 @@ RULE = ("all sequences of exactly length L (every prefix is checked too, so this
         "{read ok, read fail, write ok, write fail, tick+reconnect ok, tick+reconnect fail, advance 1 s, advance past "
         "reconnect_timeout, advance past error_timeout} (+ explicit connect ok/fail when starting Disconnected), "
         "single-register and batch API, starting connected / disconnected / after a real-driven prefix that ends in "
-        "Issue, Reconnect or Error, default and small timeout configuration, every-tick and default reconnect back-off. "
+        "Issue, Reconnect or Error, default and small timeout configuration, every-tick and default reconnect back-off; "
+        "mixed-access variants over three registers: read shapes {read A, read B, read C, batch [A,B,C], [C,B], [B], "
+        "[A,C]} with a sticky hardware-health switch: all sequences of length 4 (thorough 5) over shapes + {fail, heal, "
+        "tick, advance 1 s, advance past reconnect_timeout}, and all (3 (4) successful reads of any shape) x (script into "
+        "Issue / into Reconnect / through Reconnect, recovery, further reads and a second outage) x (2 masked reads of any "
+        "shape). "
         "evaluations = sequences; distinct non-trivial = distinct trajectories (state after each event + raise/mask "
         "observations) that leave OK at least once")
 ASSUMPTIONS = [
@@ -36,10 +46,19 @@ ASSUMPTIONS = [
     "the first failing access in OK (the one that causes OK->Issue) must be masked as well",
     "an access during which the state becomes Error may raise or not (counted as ambiguous)",
     "the every-tick variants set the public attribute reconnect_backoff_ticks so that every tick is a back-off tick",
+    "'the last value successfully read for that register' is per register and independent of the call that read it "
+    "(read or read_batch, any register list): the fake records the last value it returned per register name",
 ]
 REQUIRED = {"steps": 100000, "status_checks": 100000, "masked_read_checks": 5000, "no_raise_checks": 20000,
             "raise_in_error_checks": 500, "t_OK_Issue": 1000, "t_Issue_OK": 1000, "t_Issue_Reconnect": 500,
-            "t_Reconnect_OK": 200, "t_Reconnect_Error": 100, "t_Error_OK": 50, "t_Disconnected_OK": 100}
+            "t_Reconnect_OK": 200, "t_Reconnect_Error": 100, "t_Error_OK": 50, "t_Disconnected_OK": 100,
+            # mixed access patterns (single reads + batches over different register subsets in one sequence)
+            "mixed_sequences": 50000, "mixed_masked_read_checks": 100000, "mixed_masked_read_checks_in_Issue": 30000,
+            "mixed_masked_read_checks_in_Reconnect": 20000, "mixed_masked_read_after_single_and_batch_reads": 60000,
+            "mixed_masked_reg_absent_from_latest_successful_read": 40000,
+            "mixed_masked_single_read_of_reg_last_read_by_batch": 30000,
+            "mixed_masked_batch_read_of_reg_last_read_by_single": 15000,
+            "mixed_masked_batch_read_of_reg_last_read_by_other_batch": 20000}
 EXHAUSTIVE_ALL = True
 
 T0 = 1_700_000_000.0
@@ -105,7 +124,7 @@ def _mixed_variants(tier):
     }
     out = []
     for name, sg in segs.items():
-        for cfg in (("default", "small") if name == "mixed:reconnect" or not q else ("default",)):
+        for cfg in (("default",) if q else ("default", "small")):
             v = dict(common, alpha=sg[0][1], prefix=name, cfg=cfg, segs=sg)
             out.append((v, sum(x[2] for x in sg if x[0] == "enum")))
     return out
